@@ -77,6 +77,20 @@ def run(wname, src, here, tier, feature_sets):
         good = open(lib_rs).read()
         nob = _count_obligations(good)
         R.metric("obligations_in_source", nob)
+        from concurrent.futures import ThreadPoolExecutor
+
+        def one_label(label):
+            feats = {"default": ["avx", "sse", "neon"], "sse": ["sse"], "avx": ["avx"], "none": []}[label]
+            lc = os.path.join(work, "crate-" + label)
+            shutil.copytree(wdir, lc)
+            toml = open(os.path.join(lc, "Cargo.toml.in")).read()
+            toml = toml.replace("@SRC@", src).replace("@FEATURES@", ", ".join('"%s"' % f for f in feats))
+            open(os.path.join(lc, "Cargo.toml"), "w").write(toml)
+            if os.path.exists(lock):
+                shutil.copy(lock, os.path.join(lc, "Cargo.lock"))
+            return label, _cargo(lc, os.path.join(work, "target-" + label))
+        with ThreadPoolExecutor(max_workers=4) as ex:
+            results = dict(ex.map(one_label, labels))
         for label in labels:
             feats = {"default": ["avx", "sse", "neon"], "sse": ["sse"], "avx": ["avx"], "none": []}[label]
             toml = open(os.path.join(crate, "Cargo.toml.in")).read()
@@ -86,7 +100,7 @@ def run(wname, src, here, tier, feature_sets):
                 shutil.copy(lock, os.path.join(crate, "Cargo.lock"))
             tgt = os.path.join(work, "target-" + label)
             open(lib_rs, "w").write(good)
-            rc, diags, err = _cargo(crate, tgt)
+            rc, diags, err = results[label]
             if rc != 0:
                 if not diags:
                     R.violation("%s:build:%s" % (wname, label), "witness/%s" % cname,
